@@ -199,6 +199,23 @@ def vfield(dt):
     return 'complex' if dt.kind == 'complex' else 'real'
 
 
+class ListArr(object):
+    """np.array([s0, s1, ...]) of a short list of scalars (concrete length)"""
+
+    def __init__(self, items):
+        self.items = items
+
+
+class BytesV(object):
+    """ndarray.tobytes(): the memory image of an array (content, dtype, shape at the time of the call)"""
+
+    def __init__(self, arr):
+        self.content, self.dtype, self.shape, self.buf = arr.buf.content, arr.buf.dtype, arr.buf.shape, arr.buf
+
+    def pv_hash(self, I, fr):
+        return ('bytes', self)
+
+
 class PArr(object):
     """view on a Buf.  order_tag: None = natural N-d index set, 'C'/'F' = raveled in that order"""
 
@@ -222,6 +239,12 @@ class PArr(object):
 
     def pv_is(self, other):
         return False
+
+    def pv_len(self, I, fr):
+        sh = self.buf.shape
+        if isinstance(sh, tuple) and len(sh) >= 1:
+            return sh[0]
+        raise Unsupported('len of an array with abstract shape')
 
     def pv_getattr(self, I, fr, name):
         b = self.buf
@@ -267,7 +290,9 @@ class PArr(object):
             raise ip.PyRaise(I.make_exc('AttributeError', 'space'))
         if name == '__array_priority__':
             return 0.0
-        if name in ('sum', 'max', 'min', 'dot', 'tolist', 'reshape', 'item', 'squeeze', 'T', 'swapaxes', 'transpose', 'tobytes'):
+        if name == 'tobytes':
+            return ip.Builtin('tobytes', lambda I, fr, a, k: BytesV(self))
+        if name in ('sum', 'max', 'min', 'dot', 'tolist', 'reshape', 'item', 'squeeze', 'T', 'swapaxes', 'transpose'):
             raise Unsupported('ndarray.%s on a pointwise array' % name)
         raise ip.PyRaise(I.make_exc('AttributeError', name))
 
@@ -328,6 +353,9 @@ class PArr(object):
             return PArr(self.buf, self.order_tag)
         if isinstance(idx, PArr) and idx.buf.dtype.kind == 'bool':
             return MaskedView(self, idx)
+        if isinstance(idx, int) and not isinstance(idx, bool) and isinstance(self.buf.content, core.VVar) and isinstance(self.buf.shape, tuple) and len(self.buf.shape) == 1:
+            # one entry of a 1-d array with free contents: a scalar symbol of its own (no link to the generic index is claimed)
+            return S(z3.Real('%s[%d]' % (self.buf.content.name, idx)))
         raise Unsupported('indexing a pointwise array with %r' % (idx,))
 
     def pv_setitem(self, I, fr, idx, val):
@@ -516,6 +544,16 @@ def check_aligned(fr, *arrs):
     if len(tags) > 1:
         # the same buffer raveled and unraveled, or two different ravel orders
         fr.st.events.append(('misaligned', tuple(a.order_tag for a in arrs)))
+    if getattr(fr.st, 'shape_checks', False) and len(arrs) >= 2:
+        # 1-d operands of symbolic lengths: NumPy broadcasting (equal lengths, or one of them 1), otherwise ValueError
+        sh = [a.buf.shape for a in arrs[:2]]
+        if all(isinstance(x, tuple) and len(x) == 1 for x in sh) and sh[0][0] is not sh[1][0]:
+            n1, n2 = core.S.lift(sh[0][0]), core.S.lift(sh[1][0])
+            if not fr.st.decide(core.sc_eq(n1, n2)):
+                if not fr.st.decide(core.s_or(core.sbool(core.sc_eq(n1, 1)), core.sbool(core.sc_eq(n2, 1)))):
+                    from .harness import get_interp
+                    raise ip.PyRaise(get_interp().make_exc('ValueError', 'operands could not be broadcast together'))
+                fr.st.events.append(('broadcast', sh))
     return
 
 
@@ -599,7 +637,10 @@ def ufunc2(I, fr, op, a, b, out=None):
     check_aligned(fr, a, b, out)
     content = ufunc_content(op, [ops[0][0], ops[1][0]])
     rdt = result_dtype(op, ops)
-    return finish(I, fr, content, rdt, [a, b], out)
+    res = finish(I, fr, content, rdt, [a, b], out)
+    if op == 'add' and out is None and isinstance(res, PArr) and any(isinstance(z, float) and z == 0.0 for z in (a, b)):
+        res.buf.zero_normalised = True          # x + 0.0 has no negative zeros (IEEE: -0.0 + 0.0 == +0.0)
+    return res
 
 
 def ufunc1(I, fr, op, a, out=None):
@@ -850,6 +891,8 @@ class NpModule(object):
             # np.array([c]): broadcasts against the per-point arrays
             dt = as_dtype(kwargs['dtype']) if kwargs.get('dtype') is not None else DT('float64')
             return new_temp(VConst(a[0]), dt, fr.st.point_shape)
+        if getattr(fr.st, 'list_arrays', False) and isinstance(a, (list, tuple)) and all(I.scalar_kind(x) is not None for x in a):
+            return ListArr(list(a))
         if isinstance(a, PArr):
             dt = kwargs.get('dtype')
             copy = kwargs.get('copy', True)
@@ -1016,6 +1059,10 @@ class NpModule(object):
         return fr.st.reductions.pnorm(fr, a.buf.content, 2 if p is None else p)
 
     def f_array_equal(self, I, fr, args, kwargs):
+        if isinstance(args[0], ListArr) and isinstance(args[1], ListArr):
+            if len(args[0].items) != len(args[1].items):
+                return False
+            return core.s_and(*[core.sbool(core.sc_eq(core.S.lift(x), core.S.lift(y))) for x, y in zip(args[0].items, args[1].items)]) if args[0].items else True
         a, b = unwrap(I, fr, args[0]), unwrap(I, fr, args[1])
         if isinstance(a, PArr) and isinstance(b, PArr):
             check_aligned(fr, a, b)
